@@ -546,4 +546,96 @@ theorem q18_roundPre (cfg : Cfg) (a : A) (r : Round) (evs : List Ev) : Q18 (roun
   · exact h6
   · exact q18_noteAll cfg _ h6
 
+/-! ### the periodic section -/
+
+theorem eq_of_noErr {a b : A} (h : b.noErr = a.noErr) : b = { a with errs := b.errs } := by
+  cases a; cases b
+  simp only [A.noErr, A.mk.injEq] at h ⊢
+  obtain ⟨h1, h2, h3, h4, h5, h6, h7, h8, h9, h10, h11, h12, h13, h14, _⟩ := h
+  exact ⟨h1, h2, h3, h4, h5, h6, h7, h8, h9, h10, h11, h12, h13, h14, trivial⟩
+
+/-- `b` is `a` with (possibly) more errors of any kind -/
+def QN (a b : A) : Prop := b.noErr = a.noErr
+
+theorem QN.refl (a : A) : QN a a := rfl
+theorem QN.trans {a b c : A} (h1 : QN a b) (h2 : QN b c) : QN a c := Eq.trans h2 h1
+theorem qn_chk (a : A) (ok : Bool) (p c : String) : QN a (a.chk ok p c) := by
+  unfold A.chk; split <;> rfl
+theorem QN.chk {a b : A} (h : QN a b) (ok : Bool) (p c : String) : QN a (b.chk ok p c) := h.trans (qn_chk b ok p c)
+theorem qn_foldl {β : Type} (f : A → β → A) (hf : ∀ a x, QN a (f a x)) : ∀ (l : List β) (a : A), QN a (l.foldl f a)
+  | [], a => QN.refl a
+  | x :: l, a => by simp only [List.foldl_cons]; exact (hf a x).trans (qn_foldl f hf l _)
+theorem QN.foldl {β : Type} {a b : A} (h : QN a b) (f : A → β → A) (hf : ∀ a x, QN a (f a x)) (l : List β) :
+    QN a (l.foldl f b) := h.trans (qn_foldl f hf l b)
+
+macro "qn" : tactic => `(tactic| repeat' (first
+  | exact QN.refl _
+  | exact qn_chk _ _ _ _
+  | (refine QN.chk ?_ _ _ _)
+  | (refine QN.foldl ?_ _ (fun _ _ => ?_) _)
+  | split))
+
+theorem qn_checkTiming (cfg : Cfg) (a : A) (evs : List Ev) : QN a (checkTiming cfg a evs) := by
+  unfold checkTiming
+  qn
+
+theorem qn_checkTraffic (cfg : Cfg) (a : A) (evs : List Ev) : QN a (checkTraffic cfg a evs) := by
+  unfold checkTraffic
+  dsimp only
+  qn
+
+/-- the periodic section of `Spec.round` without the checks: the resets and the clocks -/
+def tailU (cfg : Cfg) (a : A) : A :=
+  let a := if cfg.timing && a.now - a.tTiming > 900 then { a with pubT := [], recvT := [], tTiming := a.now } else a
+  let a := if a.now - a.tTraffic > 1000 then { a with pubR := [], recvR := [], tTraffic := a.now, seq := a.seq + 1 } else a
+  if a.now - a.tInfo > 5000 then { a with tInfo := a.now } else a
+
+theorem tailU_fields (cfg : Cfg) (a : A) :
+    (tailU cfg a).now = a.now ∧ (tailU cfg a).mods = a.mods ∧ (tailU cfg a).nAccepted = a.nAccepted ∧
+    (tailU cfg a).fail = a.fail ∧ (tailU cfg a).buf = a.buf ∧ (tailU cfg a).w = a.w ∧ (tailU cfg a).errs = a.errs ∧
+    (tailU cfg a).tTiming = (if (cfg.timing && decide (a.now - a.tTiming > 900)) = true then a.now else a.tTiming) ∧
+    (tailU cfg a).tTraffic = (if a.now - a.tTraffic > 1000 then a.now else a.tTraffic) ∧
+    (tailU cfg a).seq = (if a.now - a.tTraffic > 1000 then a.seq + 1 else a.seq) ∧
+    (tailU cfg a).tInfo = (if a.now - a.tInfo > 5000 then a.now else a.tInfo) ∧
+    (tailU cfg a).pubT = (if (cfg.timing && decide (a.now - a.tTiming > 900)) = true then [] else a.pubT) ∧
+    (tailU cfg a).recvT = (if (cfg.timing && decide (a.now - a.tTiming > 900)) = true then [] else a.recvT) ∧
+    (tailU cfg a).pubR = (if a.now - a.tTraffic > 1000 then [] else a.pubR) ∧
+    (tailU cfg a).recvR = (if a.now - a.tTraffic > 1000 then [] else a.recvR) := by
+  by_cases h1 : (cfg.timing && decide (a.now - a.tTiming > 900)) = true <;>
+  by_cases h2 : a.now - a.tTraffic > 1000 <;>
+  by_cases h3 : a.now - a.tInfo > 5000 <;>
+  simp [tailU, h1, h2, h3]
+
+theorem tail_noErr (cfg : Cfg) (a : A) (evs : List Ev) : (tail cfg a evs).noErr = (tailU cfg a).noErr := by
+  unfold tail tailU
+  dsimp only
+  have h8 : QN a (if (cfg.timing && decide (a.now - a.tTiming > 900)) = true then checkTiming cfg a evs
+      else a.chk (!(sends evs).any (fun p => match p.2.2.body with | .timing .. => true | _ => false)) "C18"
+        "TIMING_MESSAGE sent before its period elapsed") := by
+    split
+    · exact qn_checkTiming cfg a evs
+    · exact qn_chk _ _ _ _
+  generalize (if (cfg.timing && decide (a.now - a.tTiming > 900)) = true then checkTiming cfg a evs
+      else a.chk (!(sends evs).any (fun p => match p.2.2.body with | .timing .. => true | _ => false)) "C18"
+        "TIMING_MESSAGE sent before its period elapsed") = a8 at h8
+  rw [eq_of_noErr h8]
+  generalize a8.errs = e8
+  by_cases h1 : (cfg.timing && decide (a.now - a.tTiming > 900)) = true
+  · simp only [h1, if_true]
+    have h10 := qn_checkTraffic cfg ({ a with errs := e8, pubT := [], recvT := [], tTiming := a.now } : A) evs
+    by_cases h2 : a.now - a.tTraffic > 1000
+    · simp only [h2, if_true]
+      rw [eq_of_noErr h10]
+      split <;> rfl
+    · simp only [h2, if_false]
+      split <;> rfl
+  · simp only [h1, Bool.false_eq_true, if_false]
+    have h10 := qn_checkTraffic cfg ({ a with errs := e8 } : A) evs
+    by_cases h2 : a.now - a.tTraffic > 1000
+    · simp only [h2, if_true]
+      rw [eq_of_noErr h10]
+      split <;> rfl
+    · simp only [h2, if_false]
+      split <;> rfl
+
 end Pyrtma.Mgr.Spec
